@@ -1805,8 +1805,213 @@ Proof.
   unfold rest at 1 2. rewrite parse_fields_lines; [|exact Hr|].
   2:{ fold rest. unfold rest. rewrite app_length. pose proof (header_lines_length hs). lia. }
   cbn [is_request]. unfold parse_request_line, line.
-  rewrite (splitn2_three SP _ _ _ Msp Usp). rewrite Hm, Hune, Hurl, Hver. cbn [andb].
+  rewrite (ParserFacts.splitn2_three _ _ _ Msp Usp). rewrite Hm, Hune, Hurl, Hver. cbn [andb].
   rewrite (fields_named_nodup L_HOST hs Hn). rewrite Hframe, andb_true_r.
   rewrite has_key_ci_get in Hhost.
   destruct (bytes_eqb (ra_version a) HTTP_1_1); destruct (get_ci L_HOST hs); try reflexivity; discriminate Hhost.
+Qed.
+
+Lemma dec3_sweep : forallb (fun n => Nat.eqb (length (dec_of_N n)) 3) (map N.of_nat (seq 100 900)) = true.
+Proof. vm_compute. reflexivity. Qed.
+
+Lemma status_code_digits z : (100 <=? z)%Z = true -> (z <=? 999)%Z = true ->
+  exists d1 d2 d3, dec_of_Z z = [d1; d2; d3] /\ forallb is_digit [d1; d2; d3] = true /\
+                   decval [d1; d2; d3] = Z.to_N z.
+Proof.
+  intros H1 H2. apply Z.leb_le in H1, H2.
+  assert (Ez : dec_of_Z z = dec_of_N (Z.to_N z)) by (unfold dec_of_Z; destruct z; try reflexivity; lia).
+  set (n := Z.to_N z) in *.
+  assert (Hin : In n (map N.of_nat (seq 100 900))).
+  { apply in_map_iff. exists (N.to_nat n). split; [apply N2Nat.id|]. apply in_seq. unfold n. lia. }
+  pose proof (forallb_In _ _ _ dec3_sweep Hin) as L. cbv beta in L. apply Nat.eqb_eq in L.
+  destruct (dec_of_N_rfc n) as [D1 D2]. destruct (dec_of_N_spec n) as (_ & D3 & _).
+  rewrite Ez. destruct (dec_of_N n) as [|d1 [|d2 [|d3 [|d4 t]]]]; try discriminate L.
+  exists d1, d2, d3. repeat split; assumption.
+Qed.
+
+(* C15_build_wellformed, responses *)
+Theorem build_wellformed_response a :
+  rfc_resp_args a = true -> wf_message RESPONSE_PARSER (build_response_of a) = true.
+Proof.
+  intros W. unfold rfc_resp_args in W.
+  apply andb_true_iff in W as [W Hbl]. apply andb_true_iff in W as [W Hfr]. apply andb_true_iff in W as [W Hnd].
+  apply andb_true_iff in W as [W Hok]. apply andb_true_iff in W as [W Hrs]. apply andb_true_iff in W as [W Hs2].
+  apply andb_true_iff in W as [Hver Hs1].
+  set (hs := expected_response_headers a).
+  set (h0 := arg_headers (sa_headers a)) in *.
+  set (clv := if truthy (sa_body a) then dec_of_N (len (or_empty (sa_body a))) else [48]).
+  assert (Ep : hs = cond_put (sa_close a) H_CONNECTION V_CLOSE
+                      (cond_put (negb (has_key_ci TRANSFER_ENCODING h0) && negb (sa_nocl a)) H_CONTENT_LENGTH clv h0))
+    by reflexivity.
+  apply nodup_ci_NoDup in Hnd. fold h0 in Hnd.
+  assert (Hn : NoDup (lkeys hs)) by (rewrite Ep; now repeat apply nodup_cond_put).
+  assert (Hr : forallb rfc_header hs = true).
+  { rewrite Ep. apply rfc_cond_put; [|reflexivity|reflexivity].
+    apply rfc_cond_put; [exact Hok|reflexivity|]. intros _. unfold clv.
+    destruct (truthy (sa_body a)); [apply dec_rfc_value|reflexivity]. }
+  assert (TEf : get_ci TRANSFER_ENCODING hs = get_ci TRANSFER_ENCODING h0).
+  { rewrite Ep, !get_ci_cond_put.
+    change (bytes_eqb TRANSFER_ENCODING (lower H_CONNECTION)) with false.
+    change (bytes_eqb TRANSFER_ENCODING (lower H_CONTENT_LENGTH)) with false.
+    now rewrite !andb_false_r. }
+  assert (CLf : get_ci CONTENT_LENGTH hs =
+                (if negb (sa_nocl a) && negb (has_key_ci TRANSFER_ENCODING h0) then Some clv else get_ci CONTENT_LENGTH h0)).
+  { rewrite Ep, !get_ci_cond_put.
+    change (bytes_eqb CONTENT_LENGTH (lower H_CONNECTION)) with false.
+    change (bytes_eqb CONTENT_LENGTH (lower H_CONTENT_LENGTH)) with true.
+    rewrite andb_false_r, andb_true_r. rewrite (andb_comm (negb (sa_nocl a))). reflexivity. }
+  set (bl := bodyless_status (Z.to_N (sa_status a))) in *.
+  assert (Hbl' : bl = true -> truthy (sa_body a) = false).
+  { intros E. rewrite E in Hbl. now apply negb_true_iff in Hbl. }
+  pose proof (rfc_framing_from_args h0 hs (sa_body a) (negb (sa_nocl a)) true false bl Hfr Hn TEf CLf
+                ltac:(reflexivity) Hbl') as Hframe.
+  destruct (status_code_digits _ Hs1 Hs2) as (d1 & d2 & d3 & Ec & Hd & Hval).
+  destruct (is_http_version_chars _ Hver) as [Vlf Vsp].
+  rewrite build_response_wire. fold hs. rewrite Ec.
+  pose (tl := if truthy (sa_reason a) then SP :: or_empty (sa_reason a) else []).
+  pose (line := sa_version a ++ SP :: [d1; d2; d3] ++ tl).
+  pose (rest := header_lines hs ++ CRLF ++ or_empty (sa_body a)).
+  assert (Er : sa_version a ++ [SP] ++ [d1; d2; d3] ++
+               (if truthy (sa_reason a) then [SP] ++ or_empty (sa_reason a) else []) ++ CRLF ++
+               header_lines hs ++ CRLF ++ or_empty (sa_body a) = line ++ CRLF ++ rest).
+  { unfold line, rest, tl. destruct (truthy (sa_reason a)); cbn [app];
+      repeat (rewrite <- app_assoc || rewrite <- app_comm_cons); reflexivity. }
+  rewrite Er. unfold wf_message.
+  assert (Hrl : ~ In LF (or_empty (sa_reason a))) by (now apply field_bytes_no_lf).
+  assert (Dl : ~ In LF [d1; d2; d3]).
+  { intros Hi. pose proof (is_digit_range _ (forallb_In _ _ _ Hd Hi)) as R. unfold LF in R. lia. }
+  assert (Ll : ~ In LF line).
+  { unfold line, tl. intros Hi. apply in_app_or in Hi as [Hi|[Hi|Hi]]; [now apply Vlf|discriminate Hi|].
+    apply in_app_or in Hi as [Hi|Hi]; [now apply Dl|].
+    destruct (truthy (sa_reason a)); [|destruct Hi]. destruct Hi as [Hi|Hi]; [discriminate Hi|now apply Hrl]. }
+  rewrite (split_once_crlf_no_lf line rest Ll).
+  unfold rest at 1 2. rewrite parse_fields_lines; [|exact Hr|].
+  2:{ rewrite app_length. pose proof (header_lines_length hs). lia. }
+  cbn [is_request]. unfold parse_status_line, line.
+  rewrite (split_once_byte_notin SP _ _ Vsp). rewrite Hver. cbn [app firstn skipn length Nat.eqb andb].
+  rewrite Hd. cbn [andb].
+  assert (Htl : match tl with [] => true | x :: reason => (x =? SP) && forallb is_field_byte reason end = true).
+  { unfold tl. destruct (truthy (sa_reason a)); [|reflexivity]. now rewrite N.eqb_refl. }
+  rewrite Htl. rewrite Hval. exact Hframe.
+Qed.
+
+(* ===================================================================================== *)
+(* concrete witnesses: non-vacuity of the hypotheses, and refutations of unguarded forms  *)
+
+Definition ex_ua : bytes := bs "proxy.py v2".
+
+(* a request the builders are given: differently spelled Content-Length already present, body *)
+Definition ex_req_args : req_args :=
+  {| ra_method := bs "POST"; ra_url := bs "/upload?x=1"; ra_version := bs "HTTP/1.1";
+     ra_ctype := Some (bs "application/json");
+     ra_headers := Some [(bs "Host", bs "example.org"); (bs "content-length", bs "999"); (bs "X-Id", bs "7")];
+     ra_body := Some (bs "{""k"": 1}"); ra_close := true; ra_noua := false |}.
+
+Lemma ex_req_args_ok : wf_req_args ex_ua ex_req_args = true /\ rfc_req_args ex_ua ex_req_args = true /\
+  exists u, from_bytes DEFAULT_ALLOWED_URL_SCHEMES (ra_url ex_req_args) = Ok u.
+Proof. split; [vm_compute; reflexivity|]. split; [vm_compute; reflexivity|]. vm_compute. eexists. reflexivity. Qed.
+
+(* a chunked response handed to build_http_response with an already encoded body *)
+Definition ex_resp_args : resp_args :=
+  {| sa_status := 200%Z; sa_version := bs "HTTP/1.1"; sa_reason := Some (bs "OK");
+     sa_headers := Some [(bs "transfer-encoding", bs "Chunked"); (bs "Server", bs "x")];
+     sa_body := Some (bs "3;a=b" ++ CRLF ++ bs "abc" ++ CRLF ++ bs "000" ++ CRLF ++ bs "T: 1" ++ CRLF ++ CRLF);
+     sa_close := false; sa_nocl := false |}.
+
+Lemma ex_resp_args_ok : wf_resp_args ex_resp_args = true /\ rfc_resp_args ex_resp_args = true.
+Proof. split; vm_compute; reflexivity. Qed.
+
+(* the fixed defect: a parsed chunked request with an EMPTY body is rebuilt WITH its terminator,
+   and the rebuilt bytes parse back to a complete message with the empty body *)
+Definition ex_empty_chunked : bytes :=
+  bs "POST /u HTTP/1.1" ++ CRLF ++ bs "Host: a" ++ CRLF ++ bs "transfer-encoding: Chunked" ++ CRLF ++ CRLF ++
+  bs "0" ++ CRLF ++ CRLF.
+
+Lemma ex_empty_chunked_rebuild :
+  exists p p', parse (new_parser REQUEST_PARSER) ex_empty_chunked = Ok p /\ state p = COMPLETE /\
+    build ex_ua p [] false None = Ok ex_empty_chunked /\
+    parse (new_parser REQUEST_PARSER) ex_empty_chunked = Ok p' /\ body p' = Some [] /\ state p' = COMPLETE.
+Proof.
+  do 2 eexists. repeat apply conj.
+  all: try (lazy; reflexivity).
+Qed.
+
+(* the hypotheses of the state-level rebuild theorem hold of that parsed request *)
+Lemma ex_rebuild_hypotheses :
+  exists p hs, parse (new_parser REQUEST_PARSER) ex_empty_chunked = Ok p /\
+    headers p = lift_headers hs /\ forallb ok_header hs = true /\ NoDup (lkeys hs) /\ framing_consistent p hs.
+Proof.
+  eexists. exists [(bs "Host", bs "a"); (bs "transfer-encoding", bs "Chunked")].
+  split; [vm_compute; reflexivity|]. split; [vm_compute; reflexivity|]. split; [vm_compute; reflexivity|].
+  split.
+  - apply nodup_ci_NoDup. vm_compute. reflexivity.
+  - unfold framing_consistent. vm_compute. repeat split; discriminate.
+Qed.
+
+(* update_body as it was before the repair: after update_body(b"hello") on a chunked request, build()
+   chunk-encodes the already encoded body a second time; the recipient decodes "5 CRLF hello ..." *)
+Definition ex_chunked_post : bytes :=
+  bs "POST /x HTTP/1.1" ++ CRLF ++ bs "Host: a" ++ CRLF ++ bs "Transfer-Encoding: chunked" ++ CRLF ++ CRLF ++
+  bs "3" ++ CRLF ++ bs "abc" ++ CRLF ++ bs "0" ++ CRLF ++ CRLF.
+
+Lemma update_body_old_refuted :
+  exists p p1 raw p2,
+    parse (new_parser REQUEST_PARSER) ex_chunked_post = Ok p /\ state p = COMPLETE /\
+    update_body_old (fun x => x) p (bs "hello") (bs "text/plain") = Ok p1 /\
+    build ex_ua p1 [] false None = Ok raw /\
+    parse (new_parser REQUEST_PARSER) raw = Ok p2 /\ state p2 = COMPLETE /\
+    body p2 = Some (bs "5" ++ CRLF ++ bs "hello" ++ CRLF ++ bs "0" ++ CRLF ++ CRLF).
+Proof.
+  do 4 eexists. repeat apply conj.
+  all: try (lazy; reflexivity).
+Qed.
+
+Lemma update_body_new_ok :
+  exists p p1 raw p2,
+    parse (new_parser REQUEST_PARSER) ex_chunked_post = Ok p /\ state p = COMPLETE /\
+    update_body (fun x => x) p (bs "hello") (bs "text/plain") = Ok p1 /\
+    build ex_ua p1 [] false None = Ok raw /\
+    parse (new_parser REQUEST_PARSER) raw = Ok p2 /\ state p2 = COMPLETE /\ body p2 = Some (bs "hello").
+Proof.
+  do 4 eexists. repeat apply conj.
+  all: try (lazy; reflexivity).
+Qed.
+
+(* the guards of C15_rebuild_stable are needed: without them the statement is false of the model
+   (and of the implementation: replayed in corpus/C15) *)
+(* (1) a path starting with "//" is re-read as a network-path reference *)
+Definition ex_double_slash : bytes := bs "GET http://h//x HTTP/1.1" ++ CRLF ++ CRLF.
+Lemma rebuild_double_slash_refuted :
+  exists p raw p', parse (new_parser REQUEST_PARSER) ex_double_slash = Ok p /\ state p = COMPLETE /\
+    path p = Some (bs "//x") /\
+    build ex_ua p [] false None = Ok raw /\ parse (new_parser REQUEST_PARSER) raw = Ok p' /\
+    host p' = Some (bs "x") /\ path p' = None.
+Proof.
+  do 3 eexists. repeat apply conj.
+  all: try (lazy; reflexivity).
+Qed.
+
+(* (2) a Content-Length that is not the canonical decimal comes back canonical: same number, other text *)
+Definition ex_cl05 : bytes :=
+  bs "POST /x HTTP/1.1" ++ CRLF ++ bs "host: a" ++ CRLF ++ bs "content-length: 05" ++ CRLF ++ CRLF ++ bs "hello".
+Lemma rebuild_noncanonical_length_refuted :
+  exists p raw p', parse (new_parser REQUEST_PARSER) ex_cl05 = Ok p /\ state p = COMPLETE /\
+    build ex_ua p [] false None = Ok raw /\ parse (new_parser REQUEST_PARSER) raw = Ok p' /\
+    state p' = COMPLETE /\ body p' = body p /\ headers p' <> headers p /\
+    header p' CONTENT_LENGTH = Ok (bs "5") /\ header p CONTENT_LENGTH = Ok (bs "05").
+Proof.
+  do 3 eexists. repeat apply conj.
+  all: try (lazy; reflexivity).
+  lazy. discriminate.
+Qed.
+
+(* (3) a status code that is not a canonical decimal is rebuilt through int() *)
+Definition ex_status_plus : bytes := bs "HTTP/1.1 +200 OK" ++ CRLF ++ bs "Content-Length: 0" ++ CRLF ++ CRLF.
+Lemma rebuild_noncanonical_status_refuted :
+  exists p raw p', parse (new_parser RESPONSE_PARSER) ex_status_plus = Ok p /\ state p = COMPLETE /\
+    build_response p = Ok raw /\ parse (new_parser RESPONSE_PARSER) raw = Ok p' /\
+    code p = Some (bs "+200") /\ code p' = Some (bs "200").
+Proof.
+  do 3 eexists. repeat apply conj.
+  all: try (lazy; reflexivity).
 Qed.
